@@ -407,6 +407,53 @@ def rule_helper_carries_source_only(ctx):
     ctx.floor("C12.g2 helper statements", n, 1)
 
 
+def rule_whole_on_condition(ctx):
+    """C12.l: the UPDATE / DELETE generated for a WHEN MATCHED clause finds "its" target rows by joining the target to the helper
+    table with the MERGE's ON condition — all of it. The helper identifies source rows only, so a conjunct on the target alone
+    (`ON t.id = s.id AND t.cur = 1`) is what keeps target rows the ON excluded out of the mutation."""
+    from .c05 import _prov_nodes
+
+    prog = ctx.prog
+    m = prog.mod("transforms_merge")
+
+    def ident(n_):
+        return NodeV("Identifier", {"this": Const(n_), "quoted": Const(False)}, name=f"id:{n_}", open=False)
+
+    def md():
+        d = merge_descriptor()
+        on = d.args["on"]
+        extra = node("EQ", "on_target_only", this=node("Column", "TGT.CUR", this=ident("CUR"), table=ident("TGT")), expression=lit("1", False))
+        both = node("And", "on_and", this=on, expression=extra)
+        on.parent = extra.parent = both
+        both.parent = d
+        d.args["on"] = both
+        return d
+
+    n = 0
+    for p in explore(prog, lambda: ExecHooks(None), lambda I: call_part(prog, I, "_mutations", md()), max_paths=64):
+        if p.outcome != "return":
+            continue
+        if not (prog.has_fn("transforms_merge", "_mutations")):
+            p = _own_parses(p)
+        for e in [e for e in p.effects if e[0] == "parse"]:
+            toks = sqlt.tokenize(e[2])
+            kind = toks[0].up if toks else "?"
+            if kind not in ("UPDATE", "DELETE"):
+                continue
+            n += 1
+            rendered = {x.origin[1].name for x in _prov_nodes(e[2]) if isinstance(x, Sym) and x.origin and x.origin[0] in ("sql", "str")
+                        and len(x.origin) > 1 and isinstance(x.origin[1], NodeV)}
+            missing = [] if "on_and" in rendered else [c for c in ("on", "on_target_only") if c not in rendered]
+            loc = m.loc(e[4]) if e[4] is not None else m.path
+            ctx.ob("C12.l", f"{kind} statement joins target and helper with the whole ON condition", not missing, loc, str(sorted(rendered))[:80])
+            if missing:
+                ctx.violation("C12.l", "transforms_merge", "_mutations", f"{kind} joins without the ON conjunct(s) {missing}", loc,
+                              f"for `ON tgt.id = src.id AND tgt.cur = 1` the generated {kind} re-joins the target to the helper table without "
+                              f"{'the target-only conjunct `tgt.cur = 1`' if missing == ['on_target_only'] else missing}: every target row sharing the key "
+                              f"with a matched pair is changed, including rows the ON condition excluded (while the counts report only the real pairs)")
+    ctx.floor("C12.l matched-clause statements", n, 4)
+
+
 class MergeHooks(FullHooks):
     def external(self, I, d, args, kwargs, site):
         if d in ("sqlglot.parse_one",) and isinstance(kwargs.get("read"), Const) and kwargs["read"].v == "snowflake":
@@ -494,6 +541,7 @@ def rule_lifetime_and_bracket(ctx):
 from .c19 import rule_temporary_stays_private  # noqa: E402  (the helper is TEMPORARY in the template *and* at the engine)
 
 RULES = [
+    ("C12.l", rule_whole_on_condition, ("quick", "thorough")),
     ("C12.g2", rule_helper_carries_source_only, ("quick", "thorough")),
     ("C12.k", rule_conditions_keep_grouping, ("quick", "thorough")),
     ("C12.j", rule_quoted_identifiers_kept, ("quick", "thorough")),
